@@ -113,6 +113,11 @@ impl Engine {
                 self.with_newline = false;
                 Box::new(PatternEncoder::new("{m}{n}"))
             }
+            99 => {
+                // a short prefix followed by the rest in one chunk
+                self.with_newline = true;
+                Box::new(ChunkEnc { pieces: 0 })
+            }
             k => {
                 self.with_newline = true;
                 Box::new(ChunkEnc { pieces: k as usize })
@@ -332,7 +337,7 @@ fn single_history(rep: &mut Report, rng: &mut Rng, idx: u64) {
     let trig = gen_trigger(rng, n_ops);
     let roller = gen_roller(rng, true);
     let append_mode = rng.chance(3, 4);
-    let enc_kind = *rng.pick(&[0u64, 1, 1, 3, 17]);
+    let enc_kind = *rng.pick(&[0u64, 1, 1, 3, 17, 99, 99]);
     let mut e = Engine::new(sc.path.clone(), append_mode, roller, trig.clone(), enc_kind);
     if matches!(trig, TrigSpec::Size(_)) && rng.chance(1, 3) {
         // built by the config-file machinery; `append` omitted means append (documented default)
@@ -428,7 +433,7 @@ fn concurrent_run(rep: &mut Report, rng: &mut Rng, idx: u64) {
         *count = *rng.pick(&[1u32, 2, 5, 40, 40, 200]);
     }
     let kind = roller.clone();
-    let enc_kind = *rng.pick(&[0u64, 1, 5]);
+    let enc_kind = *rng.pick(&[0u64, 1, 5, 99]);
     let desc = json!({"threads": threads, "records_per_thread": per, "size_limit": limit, "roller": roller.describe(), "encoder": enc_kind});
     let mut e = Engine::new(sc.path.clone(), true, roller, TrigSpec::Size(limit), enc_kind);
     if let Err((sig, what)) = e.open() {
